@@ -191,6 +191,15 @@ func c08ReadKeepsRemainder(c *Ctx) {
 			continue
 		}
 		recv, buf := rd.Params[0], rd.Params[1]
+		// a bytes.Buffer held by the receiver serves the read: buffer.Read(b) drops exactly what it copies
+		for _, call := range Calls(rd) {
+			if cv, ok := call.(*ssa.Call); ok && isBytesBufferMethod(call, "Read") && len(cv.Call.Args) == 2 && cv.Call.Args[1] == ssa.Value(buf) {
+				if _, okF := recvFieldIdx(cv.Call.Args[0], rd); okF {
+					n++
+					c.Ok("read-drops-only-copied", fmt.Sprintf("%s.Read serves a bytes.Buffer", TypeKey(nt)), p.InstrPos(cv), "bytes.Buffer.Read drops exactly the bytes it copied")
+				}
+			}
+		}
 		// copy(b…, recv.F…)
 		for _, call := range Calls(rd) {
 			cv, ok := call.(*ssa.Call)
@@ -261,6 +270,28 @@ func c08ReadKeepsRemainder(c *Ctx) {
 			}
 			if stores == 0 {
 				bad = "the buffer is never advanced after the copy"
+				// the slice kept whole with a read offset: copy(b, recv.F[recv.off:]) followed by recv.off += copied
+				if sl, isSl := cv.Call.Args[1].(*ssa.Slice); isSl && sl.High == nil && sl.Low != nil {
+					if oi, okO := recvFieldIdx(sl.Low, rd); okO {
+						for _, b := range rd.Blocks {
+							for _, in := range b.Instrs {
+								st, ok := in.(*ssa.Store)
+								if !ok || !reach(st) {
+									continue
+								}
+								if si, okS := recvFieldIdx(st.Addr, rd); !okS || si != oi {
+									continue
+								}
+								bo, isBo := st.Val.(*ssa.BinOp)
+								if isBo && bo.Op == token.ADD && ((bo.Y == ssa.Value(cv) && isRecvLoad(bo.X, rd, oi)) || (bo.X == ssa.Value(cv) && isRecvLoad(bo.Y, rd, oi))) {
+									bad = ""
+								} else {
+									bad = "after copying n bytes to the caller the read offset becomes " + RenderN(st.Val, 3) + " (at " + p.InstrPos(st) + ") instead of offset+n"
+								}
+							}
+						}
+					}
+				}
 			}
 			c.Check(bad == "", "read-drops-only-copied", key, p.InstrPos(cv), "the buffer is advanced by exactly the copied count", bad+": bytes that did not fit into the caller's buffer (the selector peeks 1024 bytes) are lost or replayed, so the chosen service does not read the client's stream intact")
 		}
@@ -415,16 +446,46 @@ func c08DetectorPresence(c *Ctx) {
 							continue
 						}
 						okSrc := false
-						for _, s2 := range leaves(call.Call.Value) {
-							if ex, isEx := s2.(*ssa.Extract); isEx && ex.Index == 0 {
-								if gc, isC := ex.Tuple.(*ssa.Call); isC && FuncIs(gc.Call.StaticCallee(), ModPath+"/services", "Get") {
-									okSrc = true
+						var fromRegistry func(v ssa.Value, fn *ssa.Function, depth int) bool
+						fromRegistry = func(v ssa.Value, fn *ssa.Function, depth int) bool {
+							lfs := leaves(v)
+							if len(lfs) == 0 {
+								return false
+							}
+							for _, s2 := range lfs {
+								if ex, isEx := s2.(*ssa.Extract); isEx && ex.Index == 0 {
+									if gc, isC := ex.Tuple.(*ssa.Call); isC && FuncIs(gc.Call.StaticCallee(), ModPath+"/services", "Get") {
+										continue
+									}
 								}
+								if f, isF := s2.(*ssa.Function); isF && InRepo(f) && PkgOf(f) == ModPath+"/services" {
+									continue
+								}
+								// a helper that is handed the constructor: judged at every call site
+								if pr, isP := s2.(*ssa.Parameter); isP && depth < 2 {
+									idx := paramIdx(pr)
+									nsites := 0
+									all := true
+									for _, g := range p.Funcs() {
+										for _, cl := range Calls(g) {
+											if cl.Common().StaticCallee() != fn || cl.Common().IsInvoke() {
+												continue
+											}
+											nsites++
+											if idx < 0 || idx >= len(cl.Common().Args) || !fromRegistry(cl.Common().Args[idx], g, depth+1) {
+												all = false
+											}
+										}
+									}
+									if nsites > 0 && all {
+										continue
+									}
+								}
+								return false
 							}
-							if f, isF := s2.(*ssa.Function); isF && InRepo(f) && PkgOf(f) == ModPath+"/services" {
-								okSrc = true
-							}
+							return true
 						}
+						okSrc = fromRegistry(call.Call.Value, fn, 0)
 						if !okSrc {
 							good, why = false, "the result of "+RenderN(call.Call.Value, 3)
 						}
@@ -458,4 +519,12 @@ func c08DetectorPresence(c *Ctx) {
 			"type "+TypeKey(n)+" wraps a Servicer (embedded interface) and has a CanHandle method: it has a payload detector whatever it wraps, so a wrapped service without one is no longer selected as \"has no detector\" (without peeking, by its position) but by the wrapper's answer")
 	}
 	c.Ok(rule, "wrapper types scanned", "-", fmt.Sprintf("%d struct types embed a Servicer interface", nc))
+}
+
+func isRecvLoad(v ssa.Value, fn *ssa.Function, idx int) bool {
+	if _, ok := v.(*ssa.UnOp); !ok {
+		return false
+	}
+	i, ok := recvFieldIdx(v, fn)
+	return ok && i == idx
 }
